@@ -50,7 +50,7 @@ pub fn month_list(leap: usize) -> Vec<isize> {
 impl LunTable {
   pub fn build(ctx: &Ctx, ylo: isize, yhi: isize) -> LunTable {
     let per_year: Mutex<Vec<(isize, usize, Vec<Lun>)>> = Mutex::new(Vec::new());
-    par_chunks(ctx, ylo as usize, yhi as usize + 1, 25, |a, b, _l| {
+    par_chunks_all(ctx, ylo as usize, yhi as usize + 1, 25, |a, b, _l| {
       let mut loc = Vec::new();
       for y in a..b {
         let y = y as isize;
